@@ -115,7 +115,16 @@ def run(tier):
         solo_keys = list(solos)
         solo_res = list(ex.map(lambda k: run_history(solos[k], "0"), solo_keys))
         hist_res = list(ex.map(lambda h: run_history(h, "0"), histories))
-        seed_keys = solo_keys[: (8 if tier == "quick" else 60)]
+        # hash-seed comparison set: one model of every family first (third-party custom operators and tying live ranges
+        # before the rest: sets of strings / objects are what a hash seed reorders), then further ones in plan order
+        prio = ["multi_custom", "multi_input", "lut_heavy", "ew_dag", "lut_mixed"]
+        by_fam = collections.OrderedDict()
+        for k in sorted(solo_keys, key=lambda k: (prio.index(k[0]) if k[0] in prio else len(prio))):
+            if not k[0].startswith("deep_chain"):
+                by_fam.setdefault(k[0], k)
+        seed_keys = list(by_fam.values())
+        seed_keys += [k for k in solo_keys if k not in seed_keys and not k[0].startswith("deep_chain")]
+        seed_keys = seed_keys[: (10 if tier == "quick" else 60)]
         seed_res = {s: list(ex.map(lambda k: run_history(solos[k], s), seed_keys)) for s in seeds[1:]}
     ref = {k: r[0] for k, r in zip(solo_keys, solo_res)}
     bad = []
